@@ -107,3 +107,124 @@ Proof.
   - cbn. repeat constructor; cbn; intuition discriminate.
   - intros f H. cbn in H. intuition (subst; cbn; lia).
 Qed.
+
+(* ================================================================== (G) ties to the Go source (regenerated on every build) *)
+(* (G1) conv/j2t toFlags (gen/Gen_j2tflags.v): the write options and DisallowUnknownField reach the native converter as the
+   model's option record, for every setting of all nine options *)
+From DG Require Import NativeFlags Gen_nativetypes Gen_j2tflags Check20g GenJ2tflagsProofs.
+
+Theorem C16_toFlags_denotes_wopts :
+  forall o, wopts_of_flags (toFlags o) =
+  {| w_require := toFlags_opts_WriteRequireField o; w_default := toFlags_opts_WriteDefaultField o;
+     w_optional := toFlags_opts_WriteOptionalField o; w_disallow_unknown := toFlags_opts_DisallowUnknownField o |}.
+Proof. exact toFlags_wopts. Qed.
+Print Assumptions C16_toFlags_denotes_wopts.
+
+(* DisallowUnknownField is the absence of F_ALLOW_UNKNOWN; each write option is its own bit *)
+Theorem C16_toFlags_tests :
+  forall o,
+  flag_on (toFlags o) NF_WRITE_DEFAULT = toFlags_opts_WriteDefaultField o /\
+  flag_on (toFlags o) NF_ALLOW_UNKNOWN = negb (toFlags_opts_DisallowUnknownField o) /\
+  flag_on (toFlags o) NF_VALUE_MAPPING = toFlags_opts_EnableValueMapping o /\
+  flag_on (toFlags o) NF_HTTP_MAPPING = toFlags_opts_EnableHttpMapping o /\
+  flag_on (toFlags o) NF_STRING_INT = toFlags_opts_String2Int64 o /\
+  flag_on (toFlags o) NF_WRITE_REQUIRE = toFlags_opts_WriteRequireField o /\
+  flag_on (toFlags o) NF_NO_BASE64 = toFlags_opts_NoBase64Binary o /\
+  flag_on (toFlags o) NF_WRITE_OPTIONAL = toFlags_opts_WriteOptionalField o /\
+  flag_on (toFlags o) NF_TRACE_BACK = toFlags_opts_ReadHttpValueFallback o.
+Proof. exact toFlags_tests. Qed.
+Print Assumptions C16_toFlags_tests.
+
+Theorem C16_flags_of_wopts_from_source :
+  forall w : wopts, flags_of_wopts w = toFlags (opts_of_wopts w) /\ wopts_of_flags (toFlags (opts_of_wopts w)) = w.
+Proof. intro w. split; [apply flags_of_wopts_is_toFlags | apply wopts_flags_roundtrip]. Qed.
+Print Assumptions C16_flags_of_wopts_from_source.
+
+Example ex_toFlags_wopts : toFlags (opts_of_wopts {| w_require := true; w_default := false; w_optional := true; w_disallow_unknown := true |}) = 160.
+Proof. reflexivity. Qed.
+
+(* (G2) thrift/idl.go convertRequireness and the marked-bit decision of thrift/utils.go HandleRequires, translated from the Go source
+   (gen/Gen_thriftreq.v).  C16_HandleRequires_is_rule above speaks about the hand mirror handle_requires_decision; the theorems below
+   state the same about the GENERATED definitions. *)
+From DG Require Import Gen_thriftreq GenThriftreqProofs.
+
+(* convertRequireness on an ordinary field: f.required becomes the IDL requiredness and the ONE call requires.Set(f.id, v) marks the
+   bit exactly when the model says the field is tracked (required / default always, optional iff SetOptionalBitmap) *)
+Theorem C16_convertRequireness_source_is_tracked :
+  forall p f old, (f_req f = 0 \/ f_req f = 1 \/ f_req f = 2) ->
+  convertRequireness (f_req f) (cr_f (f_id f) false false old) (cr_o p)
+    = Some (go_req (f_req f), [(Eff_Set, [f_id f; bitmap_value p (f_req f)])]) /\
+  set_marks (bitmap_value p (f_req f)) = tracked p f.
+Proof. exact convertRequireness_ordinary. Qed.
+Print Assumptions C16_convertRequireness_source_is_tracked.
+
+(* thrift base fields are never tracked; any requiredness outside default / required / optional panics *)
+Theorem C16_convertRequireness_source_base_and_invalid :
+  (forall r id rb sb old o, (r = 0 \/ r = 1 \/ r = 2) -> rb || sb = true ->
+     convertRequireness r (cr_f id rb sb old) o = Some (go_req r, [(Eff_Set, [id; OptionalRequireness])]) /\ set_marks OptionalRequireness = false) /\
+  (forall r f o, r <> 0 -> r <> 1 -> r <> 2 -> convertRequireness r f o = None).
+Proof. split; [exact convertRequireness_base | exact convertRequireness_invalid]. Qed.
+Print Assumptions C16_convertRequireness_source_base_and_invalid.
+
+(* HandleRequires, decision for a marked bit, from the source: for the descriptor field the model describes (hr_f: Required() is the IDL
+   requiredness, DefaultValue() == nil iff there is no parsed default) the block looks up id = 64 i + j and then does exactly what the
+   RULE says - error, skip (shifting the word), or the handler - for every option set, word index, bit index and word content *)
+Theorem C16_HandleRequires_source_is_rule :
+  forall p w f i v j, tracked p f = true -> (f_req f = 0 \/ f_req f = 1 \/ f_req f = 2) ->
+  HandleRequires_marked (w_require w) (w_default w) (w_optional w) i v j (hr_f p f) = marked_result (blk_id i j) v (rule p w f).
+Proof. exact HandleRequires_marked_is_rule. Qed.
+Print Assumptions C16_HandleRequires_source_is_rule.
+
+(* ... the hand mirror is the generated decision (so every theorem above about handle_requires_decision is about the source) *)
+Theorem C16_HandleRequires_source_is_mirror :
+  forall p w f i v j, (f_req f = 0 \/ f_req f = 1 \/ f_req f = 2) ->
+  HandleRequires_marked (w_require w) (w_default w) (w_optional w) i v j (hr_f p f)
+    = marked_result (blk_id i j) v (handle_requires_decision p w f).
+Proof. exact HandleRequires_marked_is_decision. Qed.
+Print Assumptions C16_HandleRequires_source_is_mirror.
+
+(* the id looked up is the one the model's scan reports for that position, and the caller-visible outcome is the rule's *)
+Theorem C16_HandleRequires_source_observed :
+  forall p w f id v, tracked p f = true -> (f_req f = 0 \/ f_req f = 1 \/ f_req f = 2) -> 0 <= id < 65536 ->
+  blk_id (id / 64) (id mod 64) = id /\
+  decode_marked (HandleRequires_marked (w_require w) (w_default w) (w_optional w) (id / 64) v (id mod 64) (hr_f p f))
+    = Some (obs_of_action (rule p w f) id).
+Proof. intros. split; [apply blk_id_of_id; assumption | apply HandleRequires_marked_observed; assumption]. Qed.
+Print Assumptions C16_HandleRequires_source_observed.
+
+Example ex_HandleRequires_source :
+  let p := {| p_opt_bitmap := true; p_use_default := true |} in
+  let f := {| f_id := 65; f_req := 2; f_hasdef := true |} in
+  let w := {| w_require := false; w_default := false; w_optional := false; w_disallow_unknown := false |} in
+  HandleRequires_marked false false false 1 1 1 (hr_f p f) = (Out_fall, 1, [(Eff_FieldById, [65]); (Eff_handler, [])]) /\ rule p w f = AWriteDefault.
+Proof. split; reflexivity. Qed.
+
+(* (G3) thrift/binary.go WriteEmpty from the source (gen/Gen_thriftempty.v): the "zero value" the rule's AWriteZero stands for.
+   For every type the models fill (ThriftCut.zero_of t = Some z) the call sequence of WriteEmpty, read through the lower generated levels
+   (WriteListBegin / WriteMapBegin / WriteFieldStop / WriteBool of gen/Gen_thriftbin.v, gen/Gen_thriftends.v), writes no error and exactly
+   ThriftWire.encode z; every other type byte is an error with nothing written. *)
+From DG Require Gen_thriftempty Gen_thriftends Gen_thriftbin ThriftCut GenThriftemptyProofs.
+
+Theorem C16_WriteEmpty_source_writes_zero :
+  forall t z, ThriftCut.zero_of t = Some z -> 0 <= GenThriftemptyProofs.key_code t < 256 -> 0 <= GenThriftemptyProofs.elem_code t < 256 ->
+  fst (Gen_thriftempty.BinaryProtocol_WriteEmpty (GenThriftemptyProofs.desc_of_ty t) 0 0 0 0 0 0 0 0 0 0) = 0 /\
+  empty_bytes (snd (Gen_thriftempty.BinaryProtocol_WriteEmpty (GenThriftemptyProofs.desc_of_ty t) 0 0 0 0 0 0 0 0 0 0)) = encode z.
+Proof. exact GenThriftemptyProofs.WriteEmpty_writes_zero. Qed.
+Print Assumptions C16_WriteEmpty_source_writes_zero.
+
+Theorem C16_WriteEmpty_source_invalid_type :
+  forall typ key elem, ~ In typ [2; 3; 6; 8; 10; 4; 11; 15; 14; 13; 12] -> gen_write_empty typ key elem = (GoSem.Err_NewError, []).
+Proof. exact GenThriftemptyProofs.WriteEmpty_invalid. Qed.
+Print Assumptions C16_WriteEmpty_source_invalid_type.
+
+Theorem C16_WriteEmpty_source_layers :
+  (forall t n, 0 <= t < 256 ->
+     empty_eff_bytes (Gen_thriftempty.Eff_WriteListBegin, [t; n]) = writes_bytes [] (snd (Gen_thriftbin.BinaryProtocol_WriteListBegin t n 0 0))) /\
+  (forall k v n, 0 <= k < 256 -> 0 <= v < 256 ->
+     empty_eff_bytes (Gen_thriftempty.Eff_WriteMapBegin, [k; v; n]) = writes_bytes [] (snd (Gen_thriftbin.BinaryProtocol_WriteMapBegin k v n 0 0 0))) /\
+  (Gen_thriftends.BinaryProtocol_WriteStructEnd 0 = (0, [(Gen_thriftends.Eff_WriteFieldStop, [])]) /\
+   empty_eff_bytes (Gen_thriftempty.Eff_WriteStructEnd, []) = writes_bytes [] (snd (Gen_thriftbin.BinaryProtocol_WriteFieldStop 0))) /\
+  (forall b, Gen_thriftends.BinaryProtocol_WriteBool b 0 0 = (0, [(Gen_thriftends.Eff_WriteByte, [Z.b2z b])])) /\
+  Gen_thriftends.BinaryProtocol_WriteListEnd = 0 /\ Gen_thriftends.BinaryProtocol_WriteMapEnd = 0.
+Proof. exact GenThriftemptyProofs.WriteEmpty_calls_layered. Qed.
+Print Assumptions C16_WriteEmpty_source_layers.
